@@ -122,9 +122,6 @@ Record CI (n : Z) (s : dense) : Prop := {
   ci_empty : count s = w0 -> len s = 0 /\ collapsed s = false;
   ci_coll : collapsed s = true -> len s = n /\ offset s = minI s /\ maxI s = minI s + n - 1 }.
 
-Definition CInvLow (n : Z) (s : dense) : Prop := 1 <= n /\ lim s = Lowest n /\ CI n s.
-Definition CInvHigh (n : Z) (s : dense) : Prop := 1 <= n /\ lim s = Highest n /\ CI n s.
-
 Section CIfacts.
 Variable n : Z.
 Variable s : dense.
@@ -1067,4 +1064,846 @@ Proof.
         destruct (Z_lt_dec (maxI s) j); [exfalso; apply Hj; apply (ci_out n s C); lia|]. lia. }
       specialize (H Hr). lia.
   - symmetry. exact (total_d_spec (as_exact s) (ci_inv n s C)).
+Qed.
+
+(* ================================================================== *)
+(* Part 4: the highest-collapsing store (mirror of Part 3)             *)
+(* ================================================================== *)
+
+Lemma adjust_highest_collapse s lo hi :
+  count s <> w0 ->
+  (forall i, i < minI s \/ maxI s < i -> dget s i = w0) ->
+  count s = rsum (dget s) (minI s) (maxI s) ->
+  offset s <= minI s -> minI s <= maxI s -> maxI s < offset s + len s ->
+  lo <= minI s -> maxI s <= hi -> len s < hi - lo + 1 ->
+  exists s', adjust_highest true s lo hi = Some s' /\
+    (forall j, dget s' j = clamph (dget s) hi (lo + len s - 1) j) /\
+    len s' = len s /\ offset s' = lo /\ minI s' = lo /\ maxI s' = lo + len s - 1 /\
+    count s' = count s /\ lim s' = lim s /\ collapsed s' = true.
+Proof.
+  intros N Hout Hcnt W1 W2 W3 Hlo Hhi Hlen. unfold adjust_highest.
+  destruct (Z.ltb_spec (len s) (hi - lo + 1)) as [_|X]; [|lia]. cbv zeta.
+  remember (lo + len s - 1) as e eqn:Ee.
+  assert (Em : is_empty s = false) by now apply is_empty_false. rewrite Em. cbn [andb]. rewrite Bool.orb_false_r.
+  destruct (Z.leb_spec e (minI s)) as [B1|B1].
+  - (* a single bucket *)
+    destruct (Z.eqb_spec (len s) 0) as [Z0|_]; [lia|]. eexists. split; [reflexivity|].
+    split; [|cred; rewrite zlen_setw, zlen_zeros; unfold len in *; repeat split; try reflexivity; lia].
+    intros j. unfold dget at 1. cbn [with_range with_offset with_bins with_collapsed bins offset].
+    rewrite at_setw by (rewrite zlen_zeros; unfold len in *; lia). rewrite at_zeros.
+    unfold clamph. destruct (Z.ltb_spec e j) as [L|L].
+    + destruct (Z.eqb_spec (j - lo) (len s - 1)); [lia|reflexivity].
+    + destruct (Z.eqb_spec j e) as [->|Nj].
+      * destruct (Z.eqb_spec (e - lo) (len s - 1)); [|lia]. rewrite Hcnt.
+        rewrite (rsum_drop_high (dget s) e (maxI s) hi) by (try lia; intros; apply Hout; lia).
+        symmetry. apply rsum_drop_low; try lia. intros; apply Hout; lia.
+      * destruct (Z.eqb_spec (j - lo) (len s - 1)); [lia|]. symmetry. apply Hout. lia.
+  - destruct (Z.ltb_spec 0 (offset s - lo)) as [B2|B2].
+    + (* collapse the buckets above e, then shift right *)
+      rewrite sum_range_spec by lia. rewrite reset_bins_spec by lia.
+      set (s1 := with_bins s (reset (bins s) (e + 1 - offset s) (maxI s - offset s))).
+      assert (Hl1 : len s1 = len s) by (unfold s1, len; cbn [with_bins bins]; apply zlen_reset).
+      assert (Ho1 : offset s1 = offset s) by reflexivity.
+      assert (Hb : in_bounds s1 (e - offset s1) = true) by (unfold in_bounds; rewrite Hl1, Ho1; lia).
+      rewrite Hb.
+      set (nn := rsum (dget s) (e + 1) (maxI s)).
+      set (s2 := with_range (with_bins s1 (upd (bins s1) (e - offset s1) nn)) (minI s1) e).
+      assert (Hd2 : forall i, dget s2 i = if e <? i then w0 else if i =? e then wadd (dget s e) nn else dget s i).
+      { intros i. unfold s2, dget. cbn [with_range with_bins bins offset].
+        rewrite at_upd by (unfold in_bounds, len in Hb; lia).
+        change (at_ (bins s1) (i - offset s1)) with (dget s1 i). unfold s1. rewrite dget_reset by lia.
+        cbn [with_bins offset].
+        destruct (Z.eqb_spec (i - offset s) (e - offset s)) as [E1|E1].
+        - assert (i = e) by lia. subst i. destruct (Z.ltb_spec e e); [lia|]. rewrite Z.eqb_refl.
+          destruct ((e + 1 <=? e) && (e <=? maxI s)) eqn:E2; [lia|reflexivity].
+        - destruct (Z.eqb_spec i e); [lia|]. destruct (Z.ltb_spec e i) as [L|L].
+          + destruct ((e + 1 <=? i) && (i <=? maxI s)) eqn:E2; [reflexivity|]. apply Hout. lia.
+          + destruct ((e + 1 <=? i) && (i <=? maxI s)) eqn:E2; [lia|reflexivity]. }
+      assert (Hl2 : len s2 = len s) by (unfold s2, len; cbn [with_range with_bins bins]; rewrite zlen_upd; exact Hl1).
+      destruct (shift_counts_spec s2 (offset s - lo)) as (s3 & E3 & Hd3 & Hl3 & Ho3 & Hmi3 & Hma3 & Hc3 & Hk3).
+      { unfold s2, s1. cproj. lia. }
+      { unfold s2, s1. cproj. lia. }
+      { rewrite Hl2. unfold s2, s1. cproj. lia. }
+      { intros i Hi. rewrite Hd2. unfold s2, s1 in Hi. cproj. cbn [with_range with_bins minI maxI] in Hi.
+        destruct (Z.ltb_spec e i); [reflexivity|]. destruct (Z.eqb_spec i e); [lia|]. apply Hout. lia. }
+      { unfold s2, s1. cproj. lia. }
+      { rewrite Hl2. unfold s2, s1. cproj. lia. }
+      rewrite E3. eexists. split; [reflexivity|].
+      unfold s2, s1 in Ho3, Hmi3, Hma3, Hc3, Hk3. cproj in Ho3. cproj in Hmi3. cproj in Hma3. cproj in Hc3. cproj in Hk3.
+      split; [|unfold len in *; cproj; repeat split; try assumption; lia].
+      intros j. unfold dget at 1. cproj. fold (dget s3 j). rewrite Hd3, Hd2. unfold clamph.
+      destruct (Z.ltb_spec e j); [reflexivity|]. destruct (Z.eqb_spec j e) as [->|Nj]; [|reflexivity].
+      rewrite (rsum_split (dget s) e e hi) by lia. rewrite rsum_one.
+      unfold nn. rewrite (rsum_to_high (dget s) (maxI s) (e + 1) hi) by (try lia; intros; apply Hout; lia).
+      reflexivity.
+    + (* shift left, nothing to fold *)
+      destruct (shift_counts_spec s (offset s - lo)) as (s3 & E3 & Hd3 & Hl3 & Ho3 & Hmi3 & Hma3 & Hc3 & Hk3);
+        try assumption; try lia.
+      rewrite E3. eexists. split; [reflexivity|].
+      split; [|unfold len in *; cproj; repeat split; try assumption; lia].
+      intros j. unfold dget at 1. cproj. fold (dget s3 j). rewrite Hd3. symmetry. apply (clamph_id _ _ _ (maxI s)); try lia.
+      intros k Hk. apply Hout. lia.
+Qed.
+
+(* what extendRange establishes for the highest-collapsing store: the content is clamped at
+   e = (new min) + n - 1, the window is [mn, min mx e] and lies inside the array *)
+Definition hext_post (n : Z) (s : dense) (lo hi : Z) (s1 : dense) : Prop :=
+  let mn := Z.min lo (minI s) in let mx := Z.max hi (maxI s) in let e := mn + n - 1 in
+  (forall j, dget s1 j = clamph (dget s) mx e j) /\ count s1 = count s /\ lim s1 = lim s /\
+  minI s1 = mn /\ maxI s1 = Z.min mx e /\ offset s1 <= minI s1 /\ maxI s1 < offset s1 + len s1 /\
+  len s1 <= n /\
+  (collapsed s1 = true -> len s1 = n /\ offset s1 = minI s1 /\ maxI s1 = minI s1 + n - 1) /\
+  (collapsed s1 = false -> mx <= e).
+
+Section HighOps.
+Variable grow : Z -> Z.
+Hypothesis grow_ge : forall d, d <= grow d.
+Variable n : Z.
+Hypothesis Hn : 1 <= n.
+
+Lemma extend_range_high s lo hi :
+  CI n s -> lim s = Highest n -> lo <= hi -> idx_ok lo -> idx_ok hi ->
+  exists s1, extend_range grow true s lo hi = Some s1 /\ hext_post n s lo hi s1.
+Proof.
+  intros C Hk Hlh Il Ih. unfold extend_range, get_new_length, adjust, hext_post. cbv zeta.
+  remember (Z.min lo (minI s)) as mn eqn:Emn. remember (Z.max hi (maxI s)) as mx eqn:Emx.
+  pose proof (grow_ge (mx - mn + 1)) as Hg. pose proof (ci_len n s C) as Hlen.
+  destruct (is_empty s) eqn:Hem.
+  - (* empty receiver: allocate, then adjust *)
+    apply is_empty_true in Hem. destruct (ci_sentinel n s C Hem) as [E1 E2].
+    destruct (ci_empty n s C Hem) as [L0 Cf].
+    assert (Hmn : mn = lo) by (unfold idx_ok, MaxInt32, MinInt32 in *; lia).
+    assert (Hmx : mx = hi) by (unfold idx_ok, MaxInt32, MinInt32 in *; lia).
+    assert (Hb0 : bins s = []) by (apply zlen_0_nil; exact L0).
+    cproj. rewrite Hk, Hb0. cbn [app].
+    set (n' := Z.min (grow (mx - mn + 1)) n).
+    set (s0 := with_range (with_offset (with_bins s (zeros n')) mn) mn mx).
+    assert (Hl0 : len s0 = n') by (unfold s0, len; cproj; rewrite zlen_zeros; lia).
+    assert (Hz0 : forall j, dget s0 j = w0) by (intros j; unfold s0, dget; cproj; apply at_zeros).
+    assert (Hzs : forall j, dget s j = w0) by (apply (ci_all_zero n s C Hem)).
+    unfold adjust_highest. rewrite Hl0. destruct (Z.ltb_spec n' (mx - mn + 1)) as [Bc|Bc].
+    + (* wider than the capacity: one (empty) bucket, collapsed *)
+      assert (En' : n' = n) by lia. cbv zeta.
+      assert (Em0 : is_empty s0 = true) by (apply is_empty_true; exact Hem).
+      rewrite Em0. cbn [andb]. rewrite Bool.orb_true_r.
+      destruct (Z.eqb_spec n' 0) as [Z0|_]; [lia|]. eexists. split; [reflexivity|].
+      split.
+      { intros j. unfold dget at 1. unfold s0. cproj. rewrite Hem.
+        rewrite at_setw by (rewrite zlen_zeros; lia). rewrite at_zeros, clamph_zero by exact Hzs.
+        now destruct (_ =? _). }
+      unfold len, s0. cproj. rewrite zlen_setw, zlen_zeros.
+      repeat split; try reflexivity; try exact Hk; try discriminate; lia.
+    + destruct (center_counts_spec s0 mn mx) as (s' & E & Hd & Hl & Hmi & Hma & Hc & Hk' & Ho1 & Ho2);
+        try (unfold s0; cproj; lia); try (rewrite Hl0; unfold s0; cproj; lia).
+      { intros i _. apply Hz0. }
+      rewrite E. exists s'. split; [reflexivity|].
+      apply center_counts_collapsed in E.
+      split. { intros j. rewrite Hd, Hz0, clamph_zero by exact Hzs. reflexivity. }
+      unfold s0 in Hc, Hk', E. cproj in Hc. cproj in Hk'. cproj in E.
+      repeat split; try assumption; try lia; try congruence.
+  - (* non-empty receiver *)
+    apply is_empty_false in Hem. destruct (ci_win n s C Hem) as (W1 & W2 & W3).
+    destruct ((offset s <=? mn) && (mx <? offset s + len s)) eqn:Efit.
+    + (* the range fits in the array *)
+      eexists. split; [reflexivity|].
+      split.
+      { intros j. unfold dget at 1. cproj. fold (dget s j). symmetry.
+        apply (clamph_id _ _ _ (maxI s)); try lia. intros k Hk'. apply (ci_out n s C). lia. }
+      unfold len in *. cproj. repeat split; try reflexivity; try lia.
+      all: match goal with X : collapsed _ = true |- _ => destruct (ci_coll n s C X) as (Y1 & Y2 & Y3) end; unfold len in *; lia.
+    + rewrite Hk.
+      set (n' := Z.min (grow (mx - mn + 1)) n).
+      set (s0 := if len s <? n' then with_bins s (bins s ++ zeros (n' - len s)) else s).
+      assert (Hs0 : (forall i, dget s0 i = dget s i) /\ offset s0 = offset s /\ minI s0 = minI s /\
+                    maxI s0 = maxI s /\ count s0 = count s /\ lim s0 = lim s /\ collapsed s0 = collapsed s /\
+                    len s <= len s0 /\ n' <= len s0 /\ len s0 <= n).
+      { unfold s0. destruct (Z.ltb_spec (len s) n') as [L|L].
+        - unfold dget, len. cproj. repeat split; auto.
+          + intros i. apply at_app_zeros.
+          + rewrite zlen_app. pose proof (zlen_nonneg (zeros (n' - zlen (bins s)))). lia.
+          + rewrite zlen_app, zlen_zeros. unfold len in L. lia.
+          + rewrite zlen_app, zlen_zeros. unfold len in L. lia.
+        - repeat split; auto; lia. }
+      destruct Hs0 as (Hd0 & Ho0 & Hmi0 & Hma0 & Hc0 & Hk0 & Hcl0 & Hl0a & Hl0b & Hl0c).
+      assert (Hlim0 : lim s0 = Highest n) by congruence. rewrite Hlim0.
+      destruct (Z_lt_dec (len s0) (mx - mn + 1)) as [Bc|Bc].
+      * (* wider than the array: collapse; the array then has the full capacity *)
+        assert (Eln : len s0 = n) by lia.
+        destruct (adjust_highest_collapse s0 mn mx) as (s' & E & Hd & Hl & Ho & Hmi & Hma & Hc & Hk' & Hcl);
+          try lia; try congruence.
+        { intros i Hi. rewrite Hd0. apply (ci_out n s C). lia. }
+        { rewrite Hc0, Hmi0, Hma0, (ci_count n s C). apply rsum_ext. intros; symmetry; apply Hd0. }
+        rewrite E. exists s'. split; [reflexivity|].
+        split. { intros j. rewrite Hd, Eln. apply clamph_ext. exact Hd0. }
+        repeat split; try lia; try congruence.
+      * (* the array is wide enough: recentre *)
+        unfold adjust_highest. destruct (Z.ltb_spec (len s0) (mx - mn + 1)) as [X|_]; [lia|].
+        destruct (center_counts_spec s0 mn mx) as (s' & E & Hd & Hl & Hmi & Hma & Hc & Hk' & Ho1 & Ho2); try lia.
+        { intros i Hi. rewrite Hd0. apply (ci_out n s C). lia. }
+        rewrite E. exists s'. split; [reflexivity|]. apply center_counts_collapsed in E.
+        split.
+        { intros j. rewrite Hd, Hd0. symmetry.
+          apply (clamph_id _ _ _ (maxI s)); try lia. intros k Hk''. apply (ci_out n s C). lia. }
+        repeat split; try lia; try congruence.
+        all: match goal with X : collapsed _ = true |- _ => rewrite E, Hcl0 in X; destruct (ci_coll n s C X) as (Y1 & Y2 & Y3) end; lia.
+Qed.
+End HighOps.
+
+Lemma CI_combine_high n s s2 (g : Z -> W) lo hi :
+  1 <= n -> CI n s -> lo <= hi -> idx_ok lo -> idx_ok hi ->
+  (forall i, (w0 <= g i)%Qc) -> (forall i, i < lo \/ hi < i -> g i = w0) ->
+  (w0 < g lo)%Qc -> (w0 < g hi)%Qc ->
+  let mn := Z.min lo (minI s) in let mx := Z.max hi (maxI s) in let e := mn + n - 1 in
+  let F := fun j => wadd (dget s j) (g j) in
+  (forall j, dget s2 j = clamph F mx e j) ->
+  count s2 = wadd (count s) (rsum g lo hi) ->
+  minI s2 = mn -> maxI s2 = Z.min mx e -> offset s2 <= minI s2 -> maxI s2 < offset s2 + len s2 ->
+  len s2 <= n ->
+  (collapsed s2 = true -> len s2 = n /\ offset s2 = minI s2 /\ maxI s2 = minI s2 + n - 1) ->
+  CI n s2 /\ (forall j, get (dabs s2) j = clamph F mx e j) /\
+  F mn <> w0 /\ (forall k, k < mn -> F k = w0) /\ (forall k, mx < k -> F k = w0).
+Proof.
+  intros Hn C Hlh Il Ih Gn Go Gl Gh mn mx e F Hd Hc Hmi Hma Ho1 Ho2 Hlen Hcoll.
+  pose proof (ci_count_nonneg n s C) as Cn.
+  pose proof (rsum_pos g lo hi Hlh Gn Gl) as Rp.
+  assert (Cnz : count s2 <> w0) by (rewrite Hc; apply wlt_neq; now apply wadd_pos_r).
+  assert (Fn : forall k, (w0 <= F k)%Qc) by (intros k; apply wadd_nonneg; [apply (ci_nonneg n s C)|apply Gn]).
+  assert (Hends : (count s = w0 /\ mn = lo /\ mx = hi) \/
+                  (count s <> w0 /\ minI s <= maxI s /\ idx_ok (minI s) /\ idx_ok (maxI s))).
+  { destruct (w_eq_dec (count s) w0) as [E|N].
+    - left. destruct (ci_sentinel n s C E) as [E1 E2]. unfold mn, mx. rewrite E1, E2.
+      unfold idx_ok, MaxInt32, MinInt32 in *. repeat split; auto; lia.
+    - right. destruct (ci_win n s C N) as (_ & W & _). destruct (ci_idx n s C N). auto. }
+  assert (Hmm : mn <= mx) by (unfold mn, mx; lia).
+  assert (Hemn : mn <= e) by (unfold e; lia).
+  assert (Fout : forall k, k < mn \/ mx < k -> F k = w0).
+  { intros k Hk. unfold F. rewrite (ci_out n s C k), (Go k) by (unfold mn, mx in Hk; lia). apply wadd_0_l. }
+  assert (Fmn : (w0 < F mn)%Qc).
+  { unfold F. destruct Hends as [(E & E1 & E2)|(N & W & _)].
+    - rewrite E1. apply wadd_pos_r; [apply (ci_nonneg n s C)|exact Gl].
+    - destruct (Z_le_dec lo (minI s)) as [L|L].
+      + replace mn with lo by (unfold mn; lia). apply wadd_pos_r; [apply (ci_nonneg n s C)|exact Gl].
+      + replace mn with (minI s) by (unfold mn; lia). apply wadd_pos_l; [apply (ci_ends n s C N)|apply Gn]. }
+  assert (Fmx : (w0 < F mx)%Qc).
+  { unfold F. destruct Hends as [(E & E1 & E2)|(N & W & _)].
+    - rewrite E2. apply wadd_pos_r; [apply (ci_nonneg n s C)|exact Gh].
+    - destruct (Z_le_dec (maxI s) hi) as [L|L].
+      + replace mx with hi by (unfold mx; lia). apply wadd_pos_r; [apply (ci_nonneg n s C)|exact Gh].
+      + replace mx with (maxI s) by (unfold mx; lia). apply wadd_pos_l; [apply (ci_ends n s C N)|apply Gn]. }
+  assert (I2 : Inv (as_exact s2)).
+  { constructor.
+    - reflexivity.
+    - intros i. change (dget (as_exact s2) i) with (dget s2 i). rewrite Hd. now apply clamph_nonneg.
+    - intros i Hi. change (dget (as_exact s2) i) with (dget s2 i). cbn [as_exact minI maxI] in Hi.
+      rewrite Hd. apply (clamph_out F mn e mx); [exact Fout|exact Hemn|lia].
+    - cbn [as_exact count minI maxI]. change (dget (as_exact s2)) with (dget s2).
+      rewrite (rsum_ext (dget s2) (clamph F mx e)) by (intros; apply Hd).
+      rewrite Hmi, Hma, rsum_clamph by assumption. rewrite Hc. unfold F. rewrite rsum_add. f_equal.
+      + rewrite (ci_count n s C). symmetry.
+        destruct Hends as [(E & E1 & E2)|(N & W & _)].
+        * rewrite (rsum_zero (dget s) mn mx) by (intros; now apply (ci_all_zero n s C)).
+          symmetry. apply rsum_zero. intros; now apply (ci_all_zero n s C).
+        * apply rsum_widen; [apply (ci_out n s C)| | |]; unfold mn, mx; lia.
+      + symmetry. apply rsum_widen; [exact Go| | |]; unfold mn, mx; lia.
+    - intros E. contradiction.
+    - intros _. cbn [as_exact offset minI maxI]. change (len (as_exact s2)) with (len s2). lia.
+    - intros _. cbn [as_exact minI maxI]. change (dget (as_exact s2)) with (dget s2). rewrite !Hd, Hmi, Hma. split.
+      + unfold clamph. destruct (Z.ltb_spec e mn); [lia|].
+        destruct (Z.eqb_spec mn e) as [Ee|Ne]; [|exact Fmn].
+        apply (rsum_pos_at F e mx mn); [exact Fn|lia|exact Fmn].
+      + unfold clamph. destruct (Z.ltb_spec e (Z.min mx e)); [lia|].
+        destruct (Z.eqb_spec (Z.min mx e) e) as [Ee|Ne].
+        * apply (rsum_pos_at F e mx mx); [exact Fn|lia|exact Fmx].
+        * replace (Z.min mx e) with mx by lia. exact Fmx.
+    - intros _. cbn [as_exact minI maxI]. rewrite Hmi, Hma.
+      assert (idx_ok mn /\ idx_ok mx).
+      { destruct Hends as [(E & E1 & E2)|(N & W & J1 & J2)].
+        - rewrite E1, E2. now split.
+        - unfold idx_ok, mn, mx in *. lia. }
+      unfold idx_ok in *. lia. }
+  assert (C2 : CI n s2).
+  { constructor; [exact I2|exact Hlen| |exact Hcoll]. intros E. contradiction. }
+  split; [exact C2|]. split; [|split; [now apply wlt_neq|split]].
+  - intros j. now rewrite (ci_get_dabs n s2 C2).
+  - intros k Hk. apply Fout. lia.
+  - intros k Hk. apply Fout. lia.
+Qed.
+
+Lemma hext_post_self n s lo hi :
+  CI n s -> count s <> w0 -> minI s <= lo -> hi <= maxI s -> hext_post n s lo hi s.
+Proof.
+  intros C N H1 H2. destruct (ci_win n s C N) as (W1 & W2 & W3). pose proof (ci_span n s C N) as Sp.
+  pose proof (ci_len n s C) as Hl. unfold hext_post. cbv zeta. split.
+  { intros j. symmetry. apply (clamph_id _ _ _ (maxI s)); try lia. intros k Hk'. apply (ci_out n s C). lia. }
+  repeat split; try lia.
+  all: match goal with X : collapsed _ = true |- _ => destruct (ci_coll n s C X) as (Y1 & Y2 & Y3) end; lia.
+Qed.
+
+Section HighAdd.
+Variable grow : Z -> Z.
+Hypothesis grow_ge : forall d, d <= grow d.
+Variable n : Z.
+Hypothesis Hn : 1 <= n.
+
+Lemma normalize_high s i :
+  CI n s -> lim s = Highest n -> idx_ok i ->
+  exists s1, normalize grow true s i = Some (s1, Z.min i (Z.min i (minI s) + n - 1) - offset s1) /\
+             hext_post n s i i s1.
+Proof.
+  intros C Hk Ii. unfold normalize. rewrite Hk.
+  destruct (Z.ltb_spec (maxI s) i) as [B1|B1].
+  - destruct (collapsed s) eqn:Ec.
+    + (* already collapsed: last slot *)
+      destruct (ci_coll n s C Ec) as (Y1 & Y2 & Y3).
+      assert (N : count s <> w0) by (intros E; destruct (ci_empty n s C E); congruence).
+      destruct (ci_win n s C N) as (W1 & W2 & W3).
+      exists s. split; [do 2 f_equal; lia|]. unfold hext_post. cbv zeta.
+      split.
+      { intros j. symmetry. apply (clamph_id _ _ _ (maxI s)); try lia. intros k Hk'. apply (ci_out n s C). lia. }
+      pose proof (ci_len n s C). repeat split; try lia; try congruence.
+    + destruct (extend_range_high grow grow_ge n Hn s i i C Hk (Z.le_refl i) Ii Ii) as (s1 & E1 & P).
+      rewrite E1. exists s1. split; [|exact P].
+      unfold hext_post in P. cbv zeta in P.
+      destruct P as (_ & _ & _ & Hmi & Hma & _ & _ & _ & Hct & Hcf).
+      destruct (collapsed s1) eqn:Ec1.
+      * destruct (Hct eq_refl) as (Y1 & Y2 & Y3). do 2 f_equal. lia.
+      * specialize (Hcf eq_refl). do 2 f_equal. lia.
+  - destruct (Z.ltb_spec i (minI s)) as [B2|B2].
+    + destruct (extend_range_high grow grow_ge n Hn s i i C Hk (Z.le_refl i) Ii Ii) as (s1 & E1 & P).
+      rewrite E1. exists s1. split; [|exact P]. do 2 f_equal. clear - Hn B1 B2. lia.
+    + assert (N : count s <> w0) by (apply (ci_nonempty_iff n s C); lia).
+      pose proof (ci_span n s C N) as Sp.
+      exists s. split; [do 2 f_equal; lia|]. apply hext_post_self; auto; lia.
+Qed.
+
+Theorem add_with_count_high s i c :
+  CI n s -> lim s = Highest n -> idx_ok i -> (w0 < c)%Qc ->
+  exists s', add_with_count grow true s i c = Some s' /\ CI n s' /\ lim s' = Highest n /\
+             dabs s' = sadd (Highest n) (dabs s) i c.
+Proof.
+  intros C Hk Ii Hc. unfold add_with_count.
+  assert (Ec : weqb c w0 = false) by (apply weqb_neq; now apply wlt_neq). rewrite Ec.
+  destruct (normalize_high s i C Hk Ii) as (s1 & E & P). rewrite E.
+  unfold hext_post in P. cbv zeta in P.
+  destruct P as (Hd & Hcn & Hk1 & Hmi & Hma & Ho1 & Ho2 & Hl1 & Hct & Hcf).
+  set (mn := Z.min i (minI s)) in *. set (mx := Z.max i (maxI s)) in *. set (e := mn + n - 1) in *.
+  assert (Hb : in_bounds s1 (Z.min i e - offset s1) = true) by (unfold in_bounds; lia). rewrite Hb.
+  eexists. split; [reflexivity|].
+  match goal with |- CI n ?s2 /\ _ =>
+    destruct (CI_combine_high n s s2 (fun k => if k =? i then c else w0) i i) as (C2 & Hg & F1 & F2 & F3) end;
+    try assumption; try lia.
+  - intros k. destruct (k =? i); [now apply wlt_le|apply wle_refl].
+  - intros k Hk'. destruct (Z.eqb_spec k i); [lia|reflexivity].
+  - now rewrite Z.eqb_refl.
+  - now rewrite Z.eqb_refl.
+  - intros j. rewrite clamph_add. fold mn mx e. rewrite <- Hd, clamph_point by (unfold mx; lia).
+    unfold dget at 1. cproj. unfold in_bounds, len in Hb. rewrite at_upd by lia. fold (dget s1 j).
+    destruct (Z.eqb_spec (j - offset s1) (Z.min i e - offset s1)); destruct (Z.eqb_spec j (Z.min i e)); try lia;
+      [reflexivity|now rewrite wadd_0_r].
+  - cproj. rewrite rsum_one, Z.eqb_refl. now rewrite Hcn.
+  - unfold len. cproj. rewrite zlen_upd. exact Ho2.
+  - unfold len. cproj. rewrite zlen_upd. exact Hl1.
+  - cproj. unfold len. cproj. rewrite zlen_upd. exact Hct.
+  - split; [exact C2|]. split; [cproj; congruence|].
+    unfold sadd, norm. fold mn mx e in Hg, F1, F2, F3.
+    assert (Hb0 : badd0 (dabs s) i c = badd (dabs s) i c) by (apply badd0_nz; now apply wlt_neq).
+    rewrite Hb0.
+    apply (dabs_is_clamp_high n _ _ _ mn mx) with (5 := F2) (6 := F3); try exact F1.
+    + apply wf_badd; [apply dabs_wf|apply (ci_dabs_pos n s C)|exact Hc].
+    + apply pos_badd; [apply (ci_dabs_pos n s C)|exact Hc].
+    + intros k. rewrite BinsProofs.get_badd by apply dabs_wf. rewrite !(ci_get_dabs n s C).
+      destruct (Z.eqb_spec k i) as [->|N]; [reflexivity|now rewrite wadd_0_r].
+    + exact Hg.
+Qed.
+
+Theorem add_with_count_high0 s i c :
+  CI n s -> lim s = Highest n -> idx_ok i -> (w0 <= c)%Qc ->
+  exists s', add_with_count grow true s i c = Some s' /\ CI n s' /\ lim s' = Highest n /\
+             dabs s' = sadd (Highest n) (dabs s) i c.
+Proof.
+  intros C Hk Ii Hc. destruct (weqb c w0) eqn:E.
+  - apply weqb_eq in E. subst c. exists s. split; [reflexivity|]. split; [exact C|]. split; [exact Hk|].
+    unfold sadd. rewrite badd0_zero. cbn [norm]. symmetry. now apply clamp_high_fix.
+  - apply weqb_neq in E. apply add_with_count_high; auto. now apply wpos_of_nonneg_nz.
+Qed.
+End HighAdd.
+
+Section HighMerge.
+Variable grow : Z -> Z.
+Hypothesis grow_ge : forall d, d <= grow d.
+Variable n : Z.
+Hypothesis Hn : 1 <= n.
+
+Theorem merge_same_high s o :
+  CI n s -> lim s = Highest n -> WInv o -> count o <> w0 ->
+  exists s', merge_same grow true s o = Some s' /\ CI n s' /\ lim s' = Highest n /\
+             dabs s' = clamp_high n (bmerge (dabs s) (dabs o)).
+Proof.
+  intros C Hk Io No. unfold merge_same.
+  destruct (inv_win _ Io No) as (V1 & V2 & V3). destruct (inv_idx _ Io No) as [J1 J2].
+  pose proof (inv_out _ Io) as Oout. pose proof (inv_nonneg _ Io) as Onn.
+  destruct (inv_ends _ Io No) as [Oe1 Oe2]. pose proof (inv_count _ Io) as Ocnt.
+  cbn [as_exact offset minI maxI count] in V1, V2, V3, J1, J2, Oout, Oe1, Oe2, Ocnt.
+  change (len (as_exact o)) with (len o) in V3. change (dget (as_exact o)) with (dget o) in *.
+  assert (Hs1 : exists s1, (if (minI o <? minI s) || (maxI s <? maxI o)
+                            then extend_range grow true s (minI o) (maxI o) else Some s) = Some s1 /\
+                           hext_post n s (minI o) (maxI o) s1).
+  { destruct ((minI o <? minI s) || (maxI s <? maxI o)) eqn:E.
+    - now apply extend_range_high.
+    - exists s. split; [reflexivity|].
+      assert (N : count s <> w0) by (apply (ci_nonempty_iff n s C); lia).
+      apply hext_post_self; auto; lia. }
+  destruct Hs1 as (s1 & E1 & P). rewrite E1.
+  unfold hext_post in P. cbv zeta in P.
+  destruct P as (Hd & Hcn & Hk1 & Hmi & Hma & Ho1 & Ho2 & Hl1 & Hct & Hcf).
+  set (mn := Z.min (minI o) (minI s)) in *. set (mx := Z.max (maxI o) (maxI s)) in *. set (e := mn + n - 1) in *.
+  destruct (Z.ltb_spec (maxI o) (minI o)) as [L|_]; [lia|].
+  assert (Hbo : in_bounds o (minI o - offset o) && in_bounds o (maxI o - offset o) = true)
+    by (unfold in_bounds; lia). rewrite Hbo. clear Hbo. cbn [negb]. rewrite Hk1, Hk. cbv beta iota zeta.
+  set (cnt := maxI o - minI o + 1).
+  set (k := Z.max 0 (Z.min cnt (maxI o - maxI s1))).
+  assert (Hk0 : 0 <= k <= cnt) by (unfold k, cnt; lia).
+  rewrite (firstn_slice (bins o) (minI o - offset o) cnt (cnt - k)) by (unfold len, cnt in *; lia).
+  rewrite (skipn_slice (bins o) (minI o - offset o) cnt (cnt - k)) by (unfold len, cnt in *; lia).
+  rewrite (sumW_slice_rsum (bins o) (minI o - offset o + (cnt - k)) (cnt - (cnt - k))) by (unfold len, cnt in *; lia).
+  rewrite <- (rsum_shift (at_ (bins o)) (offset o)).
+  replace (minI o - offset o + (cnt - k) + offset o) with (maxI o - k + 1) by (unfold cnt; lia).
+  replace (minI o - offset o + (cnt - k) + (cnt - (cnt - k)) - 1 + offset o) with (maxI o) by (unfold cnt; lia).
+  change (fun i => at_ (bins o) (i - offset o)) with (dget o).
+  set (S := rsum (dget o) (maxI o - k + 1) (maxI o)).
+  set (keep := slice (bins o) (minI o - offset o) (cnt - k)).
+  assert (Hzr : zlen keep = cnt - k) by (unfold keep; apply zlen_slice; unfold len, cnt in *; lia).
+  assert (Hkeep : forall x, at_ keep x = if (0 <=? x) && (x <? cnt - k) then dget o (minI o + x) else w0).
+  { intros x. unfold keep. rewrite at_slice by lia. destruct ((0 <=? x) && (x <? cnt - k)); [|reflexivity]. unfold dget. f_equal. lia. }
+  (* when some of the argument lies above the receiver's window, the receiver is collapsed *)
+  assert (Hcol : 0 < k -> len s1 = n /\ offset s1 = mn /\ maxI s1 = e /\ e < mx).
+  { intros Hk'. destruct (collapsed s1) eqn:Ec.
+    - destruct (Hct eq_refl) as (Y1 & Y2 & Y3). unfold k in Hk'. unfold mx in *. lia.
+    - specialize (Hcf eq_refl). unfold k in Hk'. unfold mx in *. lia. }
+  assert (HS : 0 < k -> S = rsum (dget o) (e + 1) mx).
+  { intros Hk'. destruct (Hcol Hk') as (Y1 & Y2 & Y3 & Y4). unfold S.
+    rewrite (rsum_to_high (dget o) (maxI o) (e + 1) mx) by (try (unfold mx; lia); intros; apply Oout; lia).
+    symmetry. apply rsum_from_low; [intros i Hi|unfold k; lia].
+    destruct (Z_lt_dec i (minI o)); [apply Oout; lia|]. unfold k, cnt in Hi. lia. }
+  assert (Hfin : forall b2,
+            (forall j, at_ b2 (j - offset s1) = wadd (dget s1 j) (clamph (dget o) mx e j)) -> zlen b2 = len s1 ->
+            let s2 := with_count (with_bins s1 b2) (wadd (count s1) (count o)) in
+            CI n s2 /\ lim s2 = Highest n /\ dabs s2 = clamp_high n (bmerge (dabs s) (dabs o))).
+  { intros b2 Hb2 Hz2 s2.
+    destruct (CI_combine_high n s s2 (dget o) (minI o) (maxI o)) as (C2 & Hg & F1 & F2 & F3); try assumption; try lia.
+    - intros j. rewrite clamph_add. fold mn mx e. rewrite <- Hd. unfold s2, dget at 1. cproj. apply Hb2.
+    - unfold s2. cproj. rewrite Hcn. f_equal. exact Ocnt.
+    - unfold s2, len. cproj. rewrite Hz2. exact Ho2.
+    - unfold s2, len. cproj. rewrite Hz2. exact Hl1.
+    - unfold s2, len. cproj. rewrite Hz2. exact Hct.
+    - split; [exact C2|]. split; [unfold s2; cproj; congruence|].
+      fold mn mx e in Hg, F1, F2, F3.
+      assert (Po : pos (dabs o)) by (apply tab_pos'; exact Onn).
+      apply (dabs_is_clamp_high n _ _ _ mn mx) with (5 := F2) (6 := F3); try exact F1.
+      + apply wf_bmerge; [apply dabs_wf|apply (ci_dabs_pos n s C)|exact Po].
+      + apply pos_bmerge; [apply dabs_wf|apply (ci_dabs_pos n s C)|exact Po].
+      + intros j. rewrite get_bmerge; [|apply dabs_wf|apply (ci_dabs_pos n s C)|apply dabs_wf|exact Po].
+        rewrite (ci_get_dabs n s C). f_equal. apply (get_dabs _ j Io).
+      + exact Hg. }
+  destruct (Z.ltb_spec 0 k) as [Kp|Kz].
+  - destruct (Hcol Kp) as (Y1 & Y2 & Y3 & Y4).
+    assert (Hb0 : in_bounds s1 (len s1 - 1) = true) by (unfold in_bounds; lia). rewrite Hb0.
+    destruct (Z.ltb_spec k cnt) as [Kc|Kc].
+    + assert (Ek : maxI o - k = e) by (unfold k, cnt in *; lia).
+      assert (Hb1 : in_bounds s1 (minI o - offset s1) && in_bounds s1 (maxI o - k - offset s1) = true)
+        by (unfold in_bounds, mn, cnt in *; lia). rewrite Hb1.
+      eexists. split; [reflexivity|]. apply Hfin.
+      * intros j. unfold in_bounds in Hb0. unfold len in *.
+        rewrite at_add_slice by (rewrite ?zlen_upd, ?Hzr; unfold mn, cnt in *; lia).
+        rewrite at_upd by lia. rewrite Hkeep. fold (dget s1 j). rewrite (HS Kp). unfold clamph.
+        destruct (Z.ltb_spec e j) as [Q1|Q1]; [|destruct (Z.eqb_spec j e) as [Q2|Q2]].
+        -- destruct (Z.eqb_spec (j - offset s1) (zlen (bins s1) - 1)); [lia|].
+           destruct ((0 <=? j - offset s1 - (minI o - offset s1)) && (j - offset s1 - (minI o - offset s1) <? cnt - k)) eqn:Q3; [unfold cnt in *; lia|reflexivity].
+        -- subst j. destruct (Z.eqb_spec (e - offset s1) (zlen (bins s1) - 1)); [|lia].
+           destruct ((0 <=? e - offset s1 - (minI o - offset s1)) && (e - offset s1 - (minI o - offset s1) <? cnt - k)) eqn:Q3; [|unfold cnt in *; lia].
+           rewrite (rsum_split (dget o) e e mx) by lia. rewrite rsum_one.
+           replace (minI o + (e - offset s1 - (minI o - offset s1))) with e by lia.
+           rewrite !wadd_assoc. f_equal. apply wadd_comm.
+        -- destruct (Z.eqb_spec (j - offset s1) (zlen (bins s1) - 1)); [lia|].
+           destruct ((0 <=? j - offset s1 - (minI o - offset s1)) && (j - offset s1 - (minI o - offset s1) <? cnt - k)) eqn:Q3.
+           ++ do 2 f_equal. lia.
+           ++ f_equal. symmetry. apply Oout. unfold cnt in Q3. lia.
+      * rewrite zlen_add_slice, zlen_upd. reflexivity.
+    + eexists. split; [reflexivity|]. apply Hfin.
+      * intros j. unfold in_bounds in Hb0. unfold len in *. rewrite at_upd by lia. fold (dget s1 j). rewrite (HS Kp). unfold clamph.
+        assert (Ek : e < minI o) by (unfold k, cnt in *; lia).
+        destruct (Z.ltb_spec e j) as [Q1|Q1]; [|destruct (Z.eqb_spec j e) as [Q2|Q2]].
+        -- destruct (Z.eqb_spec (j - offset s1) (zlen (bins s1) - 1)); [lia|now rewrite wadd_0_r].
+        -- subst j. destruct (Z.eqb_spec (e - offset s1) (zlen (bins s1) - 1)); [|lia].
+           rewrite (rsum_split (dget o) e e mx) by lia. rewrite rsum_one.
+           rewrite (Oout e) by lia. now rewrite wadd_0_l.
+        -- destruct (Z.eqb_spec (j - offset s1) (zlen (bins s1) - 1)); [lia|]. rewrite (Oout j) by lia. now rewrite wadd_0_r.
+      * apply zlen_upd.
+  - assert (K0 : k = 0) by lia.
+    destruct (Z.ltb_spec k cnt) as [Kc|Kc]; [|unfold cnt in Kc; lia].
+    assert (Hb1 : in_bounds s1 (minI o - offset s1) && in_bounds s1 (maxI o - k - offset s1) = true)
+      by (unfold in_bounds, k, cnt, mn in *; lia). rewrite Hb1.
+    eexists. split; [reflexivity|]. apply Hfin.
+    + intros j. rewrite at_add_slice by (rewrite ?Hzr; unfold len, k, cnt, mn in *; lia).
+      rewrite Hkeep. fold (dget s1 j). f_equal.
+      rewrite (clamph_id (dget o) mx e (maxI o)) by (try (intros; apply Oout); unfold k, cnt, mx in *; lia).
+      destruct ((0 <=? j - offset s1 - (minI o - offset s1)) && (j - offset s1 - (minI o - offset s1) <? cnt - k)) eqn:Q3.
+      * f_equal. lia.
+      * symmetry. apply Oout. unfold cnt in Q3. lia.
+    + apply zlen_add_slice.
+Qed.
+End HighMerge.
+
+Section HighList.
+Variable grow : Z -> Z.
+Hypothesis grow_ge : forall d, d <= grow d.
+Variable n : Z.
+Hypothesis Hn : 1 <= n.
+
+Theorem add_list_high l : forall s,
+  CI n s -> lim s = Highest n -> bins_ok l ->
+  exists s', add_list grow true s l = Some s' /\ CI n s' /\ lim s' = Highest n /\
+             dabs s' = smerge_list (Highest n) (dabs s) l.
+Proof.
+  induction l as [|[k w] l IH]; intros s C Hk Hl.
+  - exists s. split; [reflexivity|]. split; [exact C|]. split; [exact Hk|reflexivity].
+  - destruct (Hl k w (or_introl eq_refl)) as [Hki Hw].
+    destruct (add_with_count_high0 grow grow_ge n Hn s k w C Hk Hki Hw) as (s1 & E1 & C1 & K1 & A1).
+    destruct (IH s1 C1 K1) as (s' & E' & C' & K' & A'). { intros k' w' Hi. apply Hl. now right. }
+    exists s'. rewrite add_list_cons. cbn [fst snd]. rewrite E1.
+    split; [exact E'|]. split; [exact C'|]. split; [exact K'|].
+    rewrite A', A1. reflexivity.
+Qed.
+
+Lemma smerge_list_high_fix s l :
+  CI n s -> nonneg l -> smerge_list (Highest n) (dabs s) l = clamp_high n (bmerge_list (dabs s) l).
+Proof.
+  intros C Hl. rewrite <- (clamp_high_fix n s Hn C) at 1.
+  apply (smerge_list_norm (Highest n) (dabs s) l); [exact Hn|apply dabs_wf|apply (ci_dabs_pos n s C)|exact Hl].
+Qed.
+
+Theorem merge_dense_high s o :
+  CI n s -> lim s = Highest n -> WInv o ->
+  exists s', merge_dense grow true s o = Some s' /\ CI n s' /\ lim s' = Highest n /\
+             dabs s' = norm (Highest n) (bmerge (dabs s) (dabs o)).
+Proof.
+  intros C Hk Io. unfold merge_dense. cbn [norm]. destruct (is_empty o) eqn:E.
+  - apply is_empty_true in E. exists s. rewrite (dabs_empty_winv o Io E), bmerge_nil_r.
+    split; [reflexivity|]. split; [exact C|]. split; [exact Hk|]. symmetry. now apply clamp_high_fix.
+  - apply is_empty_false in E.
+    assert (Hfb : exists s', match foreach o with None => None | Some l => add_list grow true s l end = Some s' /\
+                    CI n s' /\ lim s' = Highest n /\ dabs s' = clamp_high n (bmerge (dabs s) (dabs o))).
+    { rewrite (foreach_winv o Io).
+      destruct (add_list_high (dabs o) s C Hk (dabs_bins_ok o Io)) as (s' & E' & C' & K' & A').
+      exists s'. split; [exact E'|]. split; [exact C'|]. split; [exact K'|].
+      rewrite A'. apply smerge_list_high_fix; [exact C|]. apply nonneg_of_bins_ok. now apply dabs_bins_ok. }
+    rewrite Hk. destruct (lim o) as [|m|m]; cbn [same_type]; try exact Hfb.
+    now apply merge_same_high.
+Qed.
+Corollary merge_dense_high_stepwise s o :
+  CI n s -> lim s = Highest n -> WInv o ->
+  exists s', merge_dense grow true s o = Some s' /\ CI n s' /\ lim s' = Highest n /\
+             dabs s' = smerge_list (Highest n) (dabs s) (dabs o).
+Proof.
+  intros C Hk Io. destruct (merge_dense_high s o C Hk Io) as (s' & E & C' & K' & A').
+  exists s'. split; [exact E|]. split; [exact C'|]. split; [exact K'|]. rewrite A'. cbn [norm].
+  symmetry. apply smerge_list_high_fix; [exact C|]. apply nonneg_of_bins_ok. now apply dabs_bins_ok.
+Qed.
+End HighList.
+
+(* ================================================================== *)
+(* Part 5: observers, reweight, clear, histories (both kinds)          *)
+(* ================================================================== *)
+
+(* ---- observers: they only look at the cells, so the plain-store proofs apply to [as_exact] ---- *)
+Theorem foreach_ci n s : CI n s -> foreach s = Some (dabs s).
+Proof. intros C. exact (foreach_spec (as_exact s) (ci_inv n s C)). Qed.
+Theorem foreach_abs_ci n s : CI n s -> exists l, foreach s = Some l /\ bins_of_list l = dabs s.
+Proof. intros C. exact (foreach_abs (as_exact s) (ci_inv n s C)). Qed.
+Theorem key_at_rank_ci n s r :
+  CI n s -> count s <> w0 -> key_at_rank (dabs s) r = Some (key_at_rank_d s r).
+Proof. intros C N. exact (key_at_rank_d_spec (as_exact s) r (ci_inv n s C) N). Qed.
+Theorem total_ci n s : CI n s -> total_d s = total (dabs s).
+Proof. intros C. exact (total_d_spec (as_exact s) (ci_inv n s C)). Qed.
+Theorem is_empty_ci n s : CI n s -> is_empty s = is_emptyb (dabs s).
+Proof. intros C. exact (is_empty_spec (as_exact s) (ci_inv n s C)). Qed.
+Theorem min_index_ci n s : CI n s -> min_index_d s = min_key (dabs s).
+Proof. intros C. exact (min_index_d_spec (as_exact s) (ci_inv n s C)). Qed.
+Theorem max_index_ci n s : CI n s -> max_index_d s = max_key (dabs s).
+Proof. intros C. exact (max_index_d_spec (as_exact s) (ci_inv n s C)). Qed.
+
+(* ---- Reweight ---- *)
+Lemma CI_transfer n s s' :
+  CI n s -> Inv (as_exact s') -> len s' = len s -> (count s' = w0 -> count s = w0) ->
+  collapsed s' = collapsed s -> offset s' = offset s -> minI s' = minI s -> maxI s' = maxI s -> CI n s'.
+Proof.
+  intros C I' Hl Hc Hcl Ho Hmi Hma. constructor.
+  - exact I'.
+  - rewrite Hl. apply (ci_len n s C).
+  - intros E. rewrite Hl, Hcl. apply (ci_empty n s C). now apply Hc.
+  - intros X. rewrite Hl, Ho, Hmi, Hma. apply (ci_coll n s C). now rewrite <- Hcl.
+Qed.
+
+Theorem reweight_ci n s w :
+  CI n s -> (w0 < w)%Qc ->
+  exists s', reweight_d s w = Some (Some s') /\ CI n s' /\ lim s' = lim s /\ collapsed s' = collapsed s /\
+             dabs s' = bscale w (dabs s).
+Proof.
+  intros C Hw. destruct (reweight_d_spec (as_exact s) w (ci_inv n s C) Hw) as (e' & E & I' & A').
+  assert (Hwn : w <> w0) by now apply wlt_neq.
+  unfold reweight_d in *. cbn [as_exact minI maxI offset count bins] in E.
+  change (in_bounds (as_exact s)) with (in_bounds s) in E.
+  destruct (wleb w w0); [discriminate|]. destruct (weqb w w1).
+  - exists s. inversion E; subst e'. split; [reflexivity|]. split; [exact C|]. repeat split; try exact A'.
+  - destruct (maxI s <? minI s).
+    + inversion E; subst e'. eexists. split; [reflexivity|]. split; [|repeat split; try exact A'].
+      apply (CI_transfer n s); try reflexivity; [exact C|exact I'|].
+      cproj. intros X. now apply (wmul_eq0 _ w).
+    + destruct (in_bounds s (minI s - offset s) && in_bounds s (maxI s - offset s)); [|discriminate].
+      inversion E; subst e'. eexists. split; [reflexivity|]. split; [|repeat split; try exact A'].
+      apply (CI_transfer n s); try reflexivity; [exact C|exact I'| |].
+      * unfold len. cproj. apply zlen_map_range.
+      * cproj. intros X. now apply (wmul_eq0 _ w).
+Qed.
+
+(* ---- Clear ---- *)
+Theorem clear_ci n s :
+  0 <= n -> CI n (clear_d s) /\ lim (clear_d s) = lim s /\ collapsed (clear_d s) = false /\ dabs (clear_d s) = [].
+Proof. intros Hn. split; [now apply CI_clear|]. split; [reflexivity|]. split; [reflexivity|]. apply dabs_clear. Qed.
+Lemma dabs_new_any l : dabs (new_dense l) = [].
+Proof. unfold dabs. apply tab_nil. cbn [new_dense minI maxI]. unfold MaxInt32, MinInt32. lia. Qed.
+Lemma norm_nil L : norm L [] = [].
+Proof. destruct L; reflexivity. Qed.
+
+(* ---- histories ---- *)
+(* the operations of DenseProofs.op; the argument of a merge is any member of the dense family *)
+Definition cop_ok (x : op) : Prop :=
+  match x with
+  | OAdd i c => idx_ok i /\ (w0 <= c)%Qc
+  | OClear => True
+  | OReweight w => (w0 < w)%Qc
+  | OMerge o => WInv o
+  end.
+
+Section Hist.
+Variable grow : Z -> Z.
+Variable n : Z.
+Variable L : limit.
+Hypothesis Hn : 1 <= n.
+Hypothesis HL : limit_ok L.
+Hypothesis step_add : forall s i c,
+  CI n s -> lim s = L -> idx_ok i -> (w0 <= c)%Qc ->
+  exists s', add_with_count grow true s i c = Some s' /\ CI n s' /\ lim s' = L /\ dabs s' = sadd L (dabs s) i c.
+Hypothesis step_merge : forall s o,
+  CI n s -> lim s = L -> WInv o ->
+  exists s', merge_dense grow true s o = Some s' /\ CI n s' /\ lim s' = L /\
+             dabs s' = norm L (bmerge (dabs s) (dabs o)).
+
+(* s represents norm L X, where X is the exact (never collapsed) content of the same history *)
+Definition rep (s : dense) (X : list (Z * W)) : Prop :=
+  CI n s /\ lim s = L /\ wf X = true /\ pos X /\ dabs s = norm L X.
+
+Lemma run_op_rep s X x :
+  rep s X -> cop_ok x -> exists s', run_op grow true s x = Some s' /\ rep s' (arun_op X x).
+Proof.
+  intros (C & Hk & Hwf & Hp & A) Hx. destruct x as [i c| |w|o]; cbn [run_op arun_op cop_ok] in *.
+  - destruct Hx as [Hi Hc]. destruct (step_add s i c C Hk Hi Hc) as (s' & E & C' & K' & A').
+    exists s'. split; [exact E|]. split; [exact C'|]. split; [exact K'|].
+    split; [now apply wf_badd0|]. split; [now apply pos_badd0|].
+    rewrite A', A. now apply sadd_norm.
+  - exists (clear_d s). split; [reflexivity|]. split; [apply CI_clear; lia|]. split; [exact Hk|].
+    split; [reflexivity|]. split; [constructor|]. now rewrite dabs_clear, norm_nil.
+  - destruct (reweight_ci n s w C Hx) as (s' & E & C' & K' & _ & A'). rewrite E.
+    exists s'. split; [reflexivity|]. split; [exact C'|]. split; [congruence|].
+    split; [now apply BinsProofs.wf_bscale|]. split; [now apply pos_bscale|].
+    rewrite A', A. symmetry. now apply norm_bscale.
+  - destruct (step_merge s o C Hk Hx) as (s' & E & C' & K' & A').
+    pose proof (dabs_pos_winv o Hx) as Po.
+    exists s'. split; [exact E|]. split; [exact C'|]. split; [exact K'|].
+    split; [now apply wf_bmerge|]. split; [now apply pos_bmerge|].
+    rewrite A', A. now apply norm_absorb.
+Qed.
+
+Theorem run_rep ops : forall s X,
+  rep s X -> Forall cop_ok ops -> exists s', run grow true s ops = Some s' /\ rep s' (arun X ops).
+Proof.
+  induction ops as [|x ops IH]; intros s X R Hok.
+  - exists s. split; [reflexivity|exact R].
+  - inversion Hok as [|? ? Hx Hops]; subst.
+    destruct (run_op_rep s X x R Hx) as (s1 & E1 & R1).
+    destruct (IH s1 _ R1 Hops) as (s' & E' & R').
+    exists s'. rewrite run_cons, E1. split; [exact E'|exact R'].
+Qed.
+
+Lemma rep_new : rep (new_dense L) [].
+Proof.
+  split; [apply CI_new; lia|]. split; [reflexivity|]. split; [reflexivity|]. split; [constructor|].
+  now rewrite dabs_new_any, norm_nil.
+Qed.
+Lemma rep_clear s : lim s = L -> rep (clear_d s) [].
+Proof.
+  intros Hk. split; [apply CI_clear; lia|]. split; [exact Hk|]. split; [reflexivity|]. split; [constructor|].
+  now rewrite dabs_clear, norm_nil.
+Qed.
+
+(* after ANY history the content is the clamp of the exact content of that history *)
+Theorem history_is_norm ops :
+  Forall cop_ok ops ->
+  exists s, run grow true (new_dense L) ops = Some s /\ CI n s /\ lim s = L /\
+            dabs s = norm L (arun [] ops) /\ total (dabs s) = total (arun [] ops).
+Proof.
+  intros Hok. destruct (run_rep ops _ _ rep_new Hok) as (s & E & C & K & _ & _ & A).
+  exists s. split; [exact E|]. split; [exact C|]. split; [exact K|]. split; [exact A|].
+  rewrite A. apply total_norm.
+Qed.
+
+(* a cleared store behaves like a new one: no earlier collapsed state (nor offset) leaks *)
+Theorem clear_like_new_c s ops :
+  lim s = L -> Forall cop_ok ops ->
+  exists s1 s2, run grow true (clear_d s) ops = Some s1 /\ run grow true (new_dense L) ops = Some s2 /\
+                CI n s1 /\ CI n s2 /\ dabs s1 = dabs s2.
+Proof.
+  intros Hk Hok.
+  destruct (run_rep ops _ _ (rep_clear s Hk) Hok) as (s1 & E1 & C1 & _ & _ & _ & A1).
+  destruct (run_rep ops _ _ rep_new Hok) as (s2 & E2 & C2 & _ & _ & _ & A2).
+  exists s1, s2. split; [exact E1|]. split; [exact E2|]. split; [exact C1|]. split; [exact C2|]. congruence.
+Qed.
+End Hist.
+
+Section HistInst.
+Variable grow : Z -> Z.
+Hypothesis grow_ge : forall d, d <= grow d.
+Variable n : Z.
+Hypothesis Hn : 1 <= n.
+
+Theorem history_low ops :
+  Forall cop_ok ops ->
+  exists s, run grow true (new_dense (Lowest n)) ops = Some s /\ CI n s /\ lim s = Lowest n /\
+            dabs s = clamp_low n (arun [] ops) /\ total (dabs s) = total (arun [] ops).
+Proof.
+  apply (history_is_norm grow n (Lowest n) Hn Hn).
+  - apply (add_with_count_low0 grow grow_ge n Hn).
+  - apply (merge_dense_low grow grow_ge n Hn).
+Qed.
+Theorem history_high ops :
+  Forall cop_ok ops ->
+  exists s, run grow true (new_dense (Highest n)) ops = Some s /\ CI n s /\ lim s = Highest n /\
+            dabs s = clamp_high n (arun [] ops) /\ total (dabs s) = total (arun [] ops).
+Proof.
+  apply (history_is_norm grow n (Highest n) Hn Hn).
+  - apply (add_with_count_high0 grow grow_ge n Hn).
+  - apply (merge_dense_high grow grow_ge n Hn).
+Qed.
+Theorem clear_like_new_low s ops :
+  lim s = Lowest n -> Forall cop_ok ops ->
+  exists s1 s2, run grow true (clear_d s) ops = Some s1 /\ run grow true (new_dense (Lowest n)) ops = Some s2 /\
+                CI n s1 /\ CI n s2 /\ dabs s1 = dabs s2.
+Proof.
+  apply (clear_like_new_c grow n (Lowest n) Hn Hn).
+  - apply (add_with_count_low0 grow grow_ge n Hn).
+  - apply (merge_dense_low grow grow_ge n Hn).
+Qed.
+Theorem clear_like_new_high s ops :
+  lim s = Highest n -> Forall cop_ok ops ->
+  exists s1 s2, run grow true (clear_d s) ops = Some s1 /\ run grow true (new_dense (Highest n)) ops = Some s2 /\
+                CI n s1 /\ CI n s2 /\ dabs s1 = dabs s2.
+Proof.
+  apply (clear_like_new_c grow n (Highest n) Hn Hn).
+  - apply (add_with_count_high0 grow grow_ge n Hn).
+  - apply (merge_dense_high grow grow_ge n Hn).
+Qed.
+
+(* the additions-only form: after adding any list of (index, weight) the content is the clamp of
+   the exact content, no weight is lost, and the bounds hold *)
+Theorem history_is_clamp_low l :
+  bins_ok l ->
+  exists s, add_list grow true (new_dense (Lowest n)) l = Some s /\ CI n s /\ lim s = Lowest n /\
+            dabs s = clamp_low n (bins_of_list l) /\ total (dabs s) = total l /\
+            Z.of_nat (length (bins s)) <= n /\ Z.of_nat (length (dabs s)) <= n.
+Proof.
+  intros Hl.
+  destruct (add_list_low grow grow_ge n Hn l (new_dense (Lowest n)) (CI_new n _ ltac:(lia)) eq_refl Hl)
+    as (s & E & C & K & A).
+  rewrite dabs_new_any in A.
+  rewrite (smerge_list_from_empty (Lowest n) l Hn (nonneg_of_bins_ok l Hl)) in A. cbn [norm] in A.
+  exists s. split; [exact E|]. split; [exact C|]. split; [exact K|]. split; [exact A|].
+  destruct (ci_bounds n s C) as (B1 & _ & B3 & _).
+  split; [rewrite A, total_clamp_low; apply total_bins_of_list|]. split; [exact B1|lia].
+Qed.
+Theorem history_is_clamp_high l :
+  bins_ok l ->
+  exists s, add_list grow true (new_dense (Highest n)) l = Some s /\ CI n s /\ lim s = Highest n /\
+            dabs s = clamp_high n (bins_of_list l) /\ total (dabs s) = total l /\
+            Z.of_nat (length (bins s)) <= n /\ Z.of_nat (length (dabs s)) <= n.
+Proof.
+  intros Hl.
+  destruct (add_list_high grow grow_ge n Hn l (new_dense (Highest n)) (CI_new n _ ltac:(lia)) eq_refl Hl)
+    as (s & E & C & K & A).
+  rewrite dabs_new_any in A.
+  rewrite (smerge_list_from_empty (Highest n) l Hn (nonneg_of_bins_ok l Hl)) in A. cbn [norm] in A.
+  exists s. split; [exact E|]. split; [exact C|]. split; [exact K|]. split; [exact A|].
+  destruct (ci_bounds n s C) as (B1 & _ & B3 & _).
+  split; [rewrite A, total_clamp_high; apply total_bins_of_list|]. split; [exact B1|lia].
+Qed.
+End HistInst.
+
+(* ---- an executable checker of the invariant (for the examples) ---- *)
+Definition ci_checkb (n : Z) (s : dense) : bool :=
+  inv_checkb (as_exact s) && (len s <=? n) &&
+  (if weqb (count s) w0 then (len s =? 0) && negb (collapsed s) else true) &&
+  (if collapsed s then (len s =? n) && (offset s =? minI s) && (maxI s =? minI s + n - 1) else true).
+Theorem ci_checkb_sound n s : ci_checkb n s = true -> CI n s.
+Proof.
+  unfold ci_checkb. intros H.
+  apply andb_true_iff in H. destruct H as [H H4].
+  apply andb_true_iff in H. destruct H as [H H3].
+  apply andb_true_iff in H. destruct H as [H1 H2].
+  constructor.
+  - now apply inv_checkb_sound.
+  - lia.
+  - intros E. apply weqb_eq in E. rewrite E in H3. destruct (collapsed s); cbn [negb] in H3; split; try reflexivity; lia.
+  - intros X. rewrite X in H4. lia.
+Qed.
+
+(* ================================================================== *)
+(* Part 6: readable summaries                                          *)
+(* ================================================================== *)
+
+(* II: a collapse happens only when the requested range exceeds the (possibly just grown) array,
+   and the array then has the full capacity n *)
+Lemma collapse_full_capacity (grow : Z -> Z) n l d :
+  (forall x, x <= grow x) -> l <= n ->
+  let l' := Z.max l (Z.min (grow d) n) in l' < d -> l' = n.
+Proof. intros Hg Hl l' H. pose proof (Hg d). unfold l' in *. lia. Qed.
+
+(* III, the branch without collapse: adjust is centerCounts *)
+Lemma adjust_lowest_fits fx s lo hi : hi - lo + 1 <= len s -> adjust_lowest fx s lo hi = center_counts s lo hi.
+Proof. intros H. unfold adjust_lowest. destruct (Z.ltb_spec (len s) (hi - lo + 1)); [lia|reflexivity]. Qed.
+Lemma adjust_highest_fits fx s lo hi : hi - lo + 1 <= len s -> adjust_highest fx s lo hi = center_counts s lo hi.
+Proof. intros H. unfold adjust_highest. destruct (Z.ltb_spec (len s) (hi - lo + 1)); [lia|reflexivity]. Qed.
+
+(* I: what CI says, spelled out *)
+Theorem CI_meaning n s :
+  CI n s ->
+  (forall i, (w0 <= dget s i)%Qc) /\
+  (forall i, i < minI s \/ maxI s < i -> dget s i = w0) /\
+  count s = rsum (dget s) (minI s) (maxI s) /\ count s = sumW (bins s) /\
+  (count s = w0 -> minI s = MaxInt32 /\ maxI s = MinInt32 /\ bins s = [] /\ collapsed s = false) /\
+  (count s <> w0 ->
+     offset s <= minI s /\ minI s <= maxI s /\ maxI s < offset s + len s /\
+     (w0 < dget s (minI s))%Qc /\ (w0 < dget s (maxI s))%Qc /\ idx_ok (minI s) /\ idx_ok (maxI s) /\
+     maxI s - minI s + 1 <= n) /\
+  len s <= n /\
+  (collapsed s = true -> len s = n /\ offset s = minI s /\ maxI s = minI s + n - 1).
+Proof.
+  intros C. split; [apply (ci_nonneg n s C)|]. split; [apply (ci_out n s C)|].
+  split; [apply (ci_count n s C)|]. split; [apply (ci_count_bins n s C)|]. split; [|split; [|split]].
+  - intros E. destruct (ci_sentinel n s C E) as [E1 E2]. destruct (ci_empty n s C E) as [L0 Cf].
+    split; [exact E1|]. split; [exact E2|]. split; [now apply zlen_0_nil|exact Cf].
+  - intros N. destruct (ci_win n s C N) as (W1 & W2 & W3). destruct (ci_ends n s C N) as [P1 P2].
+    destruct (ci_idx n s C N) as [J1 J2]. pose proof (ci_span n s C N) as Sp.
+    split; [exact W1|]. split; [exact W2|]. split; [exact W3|]. split; [exact P1|]. split; [exact P2|].
+    split; [exact J1|]. split; [exact J2|exact Sp].
+  - apply (ci_len n s C).
+  - apply (ci_coll n s C).
 Qed.
